@@ -17,7 +17,7 @@ func init() {
 	registerProp(&propSpec{ID: "C09", Patterns: []string{"./machine/disk", "./machine/async_disk"}})
 	registerProp(&propSpec{ID: "C10", Patterns: []string{"./machine/disk"}, Filter: lockFilter})
 	registerProp(&propSpec{ID: "C11", Patterns: []string{"./machine/disk"}})
-	registerProp(&propSpec{ID: "C12", Patterns: []string{"./machine/filesys"}})
+	registerProp(&propSpec{ID: "C12", Patterns: []string{"./machine/filesys"}, Extra: c12Extra})
 	registerProp(&propSpec{ID: "C13", Patterns: []string{"./machine/filesys"}})
 	registerProp(&propSpec{ID: "C14", Patterns: []string{"./machine/filesys"}, Filter: lockFilter})
 }
